@@ -1,0 +1,69 @@
+//! Verification seams (compiled only with `--cfg mathcat_verif`).
+//!
+//! A test harness can install a per-thread environment that answers the file system, clock and
+//! randomness questions MathCAT would otherwise ask the operating system.
+//! If no environment is installed (the default), every hook falls through to the normal code.
+use std::cell::RefCell;
+use std::io;
+use std::path::{Path, PathBuf};
+use std::sync::Arc;
+use std::time::SystemTime;
+
+pub trait VerifEnv: Send + Sync {
+    fn is_file(&self, path: &Path) -> bool;
+    fn is_dir(&self, path: &Path) -> bool;
+    /// Names (not paths) of the entries of `path` in the order a directory scan would yield them
+    fn read_dir_names(&self, path: &Path) -> Option<Vec<String>>;
+    fn canonicalize(&self, path: &Path) -> io::Result<PathBuf>;
+    fn read(&self, path: &Path) -> io::Result<Vec<u8>>;
+    fn modified(&self, path: &Path) -> Option<SystemTime>;
+    fn write_file(&self, path: &Path, bytes: &[u8]) -> io::Result<()>;
+    fn create_dir_all(&self, path: &Path) -> io::Result<()>;
+    fn config_dir(&self) -> Option<PathBuf>;
+    fn now_ms(&self) -> u128;
+    fn random_usize(&self) -> usize;
+}
+
+thread_local! {
+    static ENV: RefCell<Option<Arc<dyn VerifEnv>>> = const { RefCell::new(None) };
+}
+
+/// Install (or remove with `None`) the environment for the calling thread.
+pub fn install(env: Option<Arc<dyn VerifEnv>>) {
+    ENV.with(|e| *e.borrow_mut() = env);
+}
+
+pub fn env() -> Option<Arc<dyn VerifEnv>> {
+    return ENV.with(|e| e.borrow().clone());
+}
+
+/// `ZipArchive::extract` semantics (create dirs, create/truncate each file, copy) against the environment
+pub fn zip_extract(env: &Arc<dyn VerifEnv>, dir: &Path, contents: Vec<u8>) -> io::Result<()> {
+    use std::io::Read;
+    let archive = std::io::Cursor::new(contents);
+    let mut zip_archive = match zip::ZipArchive::new(archive) {
+        Ok(archive) => archive,
+        Err(e) => return Err(io::Error::new(io::ErrorKind::InvalidData, e.to_string())),
+    };
+    for i in 0..zip_archive.len() {
+        let mut file = match zip_archive.by_index(i) {
+            Ok(file) => file,
+            Err(e) => return Err(io::Error::new(io::ErrorKind::InvalidData, e.to_string())),
+        };
+        let out_path = match file.enclosed_name() {
+            Some(path) => dir.join(path),
+            None => return Err(io::Error::new(io::ErrorKind::InvalidData, "invalid file path in archive")),
+        };
+        if file.is_dir() {
+            env.create_dir_all(&out_path)?;
+        } else {
+            if let Some(parent) = out_path.parent() {
+                env.create_dir_all(parent)?;
+            }
+            let mut bytes = Vec::with_capacity(file.size() as usize);
+            file.read_to_end(&mut bytes)?;
+            env.write_file(&out_path, &bytes)?;
+        }
+    }
+    return Ok(());
+}
